@@ -1,0 +1,73 @@
+//go:build verif
+
+// Contracts for package modules (C18), checked by /verif/govc (comment-only file).
+
+package modules
+
+//@ # reach(mods, a, b): b is reachable from a through one or more dependency edges (uninterpreted;
+//@ # tied to the code by the contract of DependenciesForModule).
+//@ pure func reach(mods map[string]*module, a string, b string) bool
+//@
+//@ assume func Manager.DependenciesForModule
+//@   ensures forall x string :: (exists i int :: 0 <= i && i < len(result) && result[i] == x) <==> reach(m.modules, module, x)
+//@   modifies nothing
+//@
+//@ func Manager.AddDependency
+//@   property C18
+//@   requires forall n string :: in(n, m.modules) ==> m.modules[n] != nil
+//@   ensures  nocycle: result == nil ==> (forall j int :: 0 <= j && j < len(dependsOn) ==> dependsOn[j] != name && !reach(old(m).modules, dependsOn[j], name))
+//@   ensures  known: result == nil ==> in(name, old(m).modules) && (forall j int :: 0 <= j && j < len(dependsOn) ==> in(dependsOn[j], old(m).modules))
+//@   loop 0 invariant forall j int :: 0 <= j && j < $i ==> dependsOn[j] != name && !reach(m.modules, dependsOn[j], name) && in(dependsOn[j], m.modules)
+//@   loop 0 invariant same(m, old(m)) && ok
+//@   loop 1 invariant forall q int :: 0 <= q && q < $i ==> $coll[q] != name
+//@
+//@ # listDeps: only its frame and the closure of the registered-module graph are assumed (AddDependency#post:known keeps the graph closed)
+//@ assume func Manager.listDeps
+//@   modifies nothing
+//@   ensures forall i int :: 0 <= i && i < len(result) ==> in(result[i], m.modules)
+//@
+//@ func Manager.orderedDeps
+//@   property C18
+//@   requires forall n string :: in(n, m.modules) ==> m.modules[n] != nil
+//@   ghost var pos total[string]int = havoc
+//@   ensures  unique: forall p, q int :: 0 <= p && p < q && q < len(result) ==> result[p] != result[q]
+//@   ensures  order: forall p int :: 0 <= p && p < len(result) ==> in(result[p], m.modules) ==>
+//@              (forall j int :: 0 <= j && j < len(m.modules[result[p]].deps) ==>
+//@                 0 <= pos[m.modules[result[p]].deps[j]] && pos[m.modules[result[p]].deps[j]] < p && result[pos[m.modules[result[p]].deps[j]]] == m.modules[result[p]].deps[j])
+//@   loop 0 invariant forall n string :: in(n, uniq) ==> !uniq[n] && in(n, m.modules)
+//@   loop 1 invariant same(m, old(m)) && !isnil(uniq) && (forall n string :: in(n, uniq) ==> in(n, m.modules))
+//@   loop 1 invariant forall n string :: in(n, uniq) && uniq[n] ==> 0 <= pos[n] && pos[n] < len(result) && result[pos[n]] == n
+//@   loop 1 invariant forall p int :: 0 <= p && p < len(result) ==> in(result[p], uniq) && uniq[result[p]] && pos[result[p]] == p
+//@   loop 1 invariant forall p int :: 0 <= p && p < len(result) ==> in(result[p], m.modules) ==>
+//@              (forall j int :: 0 <= j && j < len(m.modules[result[p]].deps) ==>
+//@                 in(m.modules[result[p]].deps[j], uniq) && uniq[m.modules[result[p]].deps[j]] && pos[m.modules[result[p]].deps[j]] < p)
+//@   loop 2 invariant same(m, old(m)) && !isnil(uniq) && (forall n string :: in(n, $coll) <==> in(n, uniq)) && (forall n string :: in(n, uniq) ==> in(n, m.modules))
+//@   loop 2 invariant forall n string :: in(n, uniq) && uniq[n] ==> 0 <= pos[n] && pos[n] < len(result) && result[pos[n]] == n
+//@   loop 2 invariant forall p int :: 0 <= p && p < len(result) ==> in(result[p], uniq) && uniq[result[p]] && pos[result[p]] == p
+//@   loop 2 invariant forall p int :: 0 <= p && p < len(result) ==> in(result[p], m.modules) ==>
+//@              (forall j int :: 0 <= j && j < len(m.modules[result[p]].deps) ==>
+//@                 in(m.modules[result[p]].deps[j], uniq) && uniq[m.modules[result[p]].deps[j]] && pos[m.modules[result[p]].deps[j]] < p)
+//@   loop 2 invariant forall n string :: in(n, uniq) && !$visited[n] ==> uniq[n] == $coll[n]
+//@   loop 2 end pos := (in($k, uniq) && uniq[$k] && len(result) > 0 && result[len(result)-1] == $k) ? store(pos, $k, len(result)-1) : pos
+//@   loop 3 invariant forall j int :: 0 <= j && j < $i ==> in($coll[j], uniq) && uniq[$coll[j]]
+//@
+//@ # ---- run time ordering (ghost sets of awaited dependencies, checked at the call that must come after) ----
+//@ func moduleService.start
+//@   property C18
+//@   ghost var awaited set[string] = emptyset("")
+//@   loop 0 invariant forall k string :: $visited[k] && startDeps[k] != nil ==> awaited[k]
+//@   loop 0 end awaited := (s != nil && err == nil) ? setadd(awaited, $k) : awaited
+//@   at before@services.Service.StartAsync: assert forall k string :: in(k, startDeps) && startDeps[k] != nil ==> awaited[k]
+//@
+//@ func moduleService.waitForModulesToStop
+//@   property C18
+//@   ghost var awaited set[string] = emptyset("")
+//@   loop 0 invariant forall k string :: $visited[k] && stopDeps[k] != nil ==> awaited[k]
+//@   loop 0 end awaited := s != nil ? setadd(awaited, $k) : awaited
+//@   at exit: assert forall k string :: in(k, stopDeps) && stopDeps[k] != nil ==> awaited[k]
+//@
+//@ func moduleService.stop
+//@   property C18
+//@   ghost var waited bool = false
+//@   at after@modules.moduleService.waitForModulesToStop: waited := true
+//@   at before@services.StopAndAwaitTerminated: assert waited
